@@ -1,6 +1,6 @@
 """C08 — Multipart uploads assemble exactly the chosen parts and stay isolated (DESIGN.md §7 C08)."""
 import hashlib, json, random, urllib.parse, uuid
-from vlib import common, coq, gobuild, gw, s3c, e2e
+from vlib import chunkenc, common, coq, gobuild, gw, s3c, e2e
 from vlib.common import coq_str, coq_list
 
 THEOREMS = ["C08_complete_assembles_listed_parts", "C08_complete_uses_latest_uploads", "C08_part_is_latest_upload", "C08_failed_complete_changes_nothing",
@@ -181,6 +181,27 @@ def history(chk, cl, bk, w, rnd, n_ops):
             record("Create %d %d %d" % (kidx[k], m, u), "create %s -> upload#%d" % (k, u), ("ok",))
         elif x < 0.42:
             u, us, k = pick_uid(); n = rnd.choice([1, 1, 1, 2, 2, 2, 3, 3, 5, 10000, 0, 10001, -1]); pieces = new_part_data(); body = w.mat(pieces)
+            if u in live and live[u]["key"] == k and live[u]["parts"] and rnd.random() < 0.3:
+                # a re-upload of an existing part that the gateway must refuse (the body is shorter than declared / its checksum is wrong):
+                # not an operation of the model, the part keeps its bytes and its ETag
+                n0 = rnd.choice(sorted(live[u]["parts"])); junk = b"refused-part-" + bytes([65 + len(text) % 26]) * 40
+                if rnd.random() < 0.5:
+                    hd_ = {"x-amz-decoded-content-length": str(len(junk) + 7), "content-encoding": "aws-chunked", "x-amz-trailer": "x-amz-checksum-crc32"}
+                    rr, _ = cl.req_streaming("PUT", path(k), lambda *a_: chunkenc.encode_unsigned([junk], "crc32"), query={"partNumber": str(n0), "uploadId": us}, headers=hd_,
+                                             payload_type="STREAMING-UNSIGNED-PAYLOAD-TRAILER")
+                    how_ = "short body"
+                else:
+                    rr = cl.req("PUT", path(k), query={"partNumber": str(n0), "uploadId": us}, body=junk, headers={"x-amz-checksum-crc32": "AAAAAA=="}); how_ = "wrong checksum"
+                chk.count("refused-part:%s:%d" % (how_.replace(" ", "-"), rr.status))
+                if rr.status == 200:
+                    viol("bad-part-accepted", "a re-upload of part %d with a %s is acknowledged" % (n0, how_))
+                if text: text[-1] += " ; then a re-upload of part %d of upload#%d refused with %d %s (%s)" % (n0, u, rr.status, rr.code, how_)
+                if rr.status != 200:
+                    lp_ = cl.req("GET", path(k), query={"uploadId": us})
+                    now_ = {int(p_.findtext("PartNumber")): (e2e.etag_clean(p_.findtext("ETag")), int(p_.findtext("Size"))) for p_ in lp_.xml().findall("Part")} if lp_.status == 200 and lp_.xml() is not None else {}
+                    want_ = (e2e.etag_clean(live[u]["parts"][n0][1]), len(w.mat(live[u]["parts"][n0][0])))
+                    if now_.get(n0) != want_:
+                        viol("refused-part-changed-part", "after a refused re-upload (%s, %d %s) part %d of the upload reads (ETag, size) %s; it was uploaded as %s" % (how_, rr.status, rr.code, n0, now_.get(n0), want_))
             r = cl.req("PUT", path(k), query={"partNumber": str(n), "uploadId": us}, body=body)
             o = ("part", e2e.etag_clean(r.headers.get("etag")), len(body)) if r.status == 200 else ("err", r.code)
             if r.status == 200 and not (u in live and live[u]["key"] == k):
